@@ -243,10 +243,8 @@ func (s *supARFO) childTerminated(name gen.Atom, pid gen.PID, reason error) supA
 			}
 
 		} else {
-			if len(s.wait) > 0 {
-				// must be 0
-				panic(gen.ErrInternal)
-			}
+			// s.wait is not empty if a child that has not been asked yet
+			// terminated by itself. the one we asked is still on its way
 
 			if specI < s.restartI {
 				// terminated child is not among we are waiting for termination.
